@@ -4,6 +4,10 @@
 (* lengths sit on the push-form boundaries.                                                   *)
 EXTENDS ScriptTok, TLC, Json
 
+\* the symbolic lemma module (Apalache: header round trip for every length below 2^31) is about this very operator
+PH == INSTANCE PushHdrInd WITH n <- 1
+ASSUME \A k \in {1, 2, 75, 76, 77, 255, 256, 257, 65535, 65536, 65537, 16777216, 2147483646} : PushPrefix(k) = PH!Prefix(k)
+
 CONSTANT MaxLen
 Alpha == {0, 1, 2, 3, 75, 76, 77, 78, 79, 81, 106, 118, 172, 255}
 Lens == {1, 2, 75, 76, 255, 256}
